@@ -67,5 +67,8 @@ OutcomeChecks(e) ==
    rectangular   |-> e.kind = "ok" => wf("rectangular"),
    namesDistinct |-> e.kind = "ok" => wf("namesDistinct"),
    headerConsistent |-> (e.kind = "ok" /\ Len(e.outs) >= 1) => HeaderOK(e.c, e.outs[1]),
+   \* a stream whose layout the generator knows delivers exactly that list
+   declaredStream |-> (e.kind = "ok" /\ Len(e.c.decl) > 0) =>
+                        (Len(e.outs) = Len(e.c.decl) /\ ~e.finalerr /\ \A k \in 1..Len(e.c.decl) : e.outs[k].nb = e.c.decl[k][1] /\ e.outs[k].len = e.c.decl[k][2]),
    partitionMap  |-> (e.kind = "ok" /\ e.c.fmt = "partition") => (Len(e.part) = e.c.plen /\ \A i \in 1..Len(e.part) : e.part[i] >= -1)]
 =============================================================================
